@@ -282,4 +282,20 @@ CLAIMS = {
                 "bounded part; callables of the module under test are opaque values; a constructor's name is __init__ (class "
                 "names are not filtered - pinned by the repository's tests).",
     },
+    "C28": {
+        "category": "other",
+        "text": "Bounded stand-in (not a proof): (1) _stratified_counts on every size vector of length <= 4 with entries <= 6 and "
+                "every cap: the counts sum to min(cap, total) and lie in 0..size; _round_robin interleaves its lists round by round "
+                "(exhaustive over <= 3 lists of length <= 3); (2) all standard and experimental mutation operators with the real "
+                "FirstOrderMutator/HighOrderMutator on a hand-written feature module and the sources of bisect and heapq "
+                "(thorough: textwrap): every first-order mutant equals a fresh parse of the original in which only the mutated "
+                "node is replaced and differs from the original, mutation_count equals the full enumeration (also under a cap), "
+                "sampled/reordered enumerations are sub-multisets of the full one with exactly min(cap, total) mutants, and the "
+                "original AST dump is unchanged after every completed enumeration (full, counted, capped, reordered, four "
+                "higher-order strategies).",
+        "technique": "bounded contract check (the operators are in-place mutate-and-restore generators over Python ASTs: "
+                     "outside the verifier's subset; the sampling arithmetic needs induction over sums)",
+        "note": "no unbounded claim; abandoning a mutant generator before it is exhausted (which leaves the shared AST mutated) "
+                "is outside the statement and not explored; that each mutant's *behaviour* differs is not checked (only its AST).",
+    },
 }
